@@ -215,6 +215,22 @@ class Runner:
             # attribute front-end errors to witnesses with a syntax-only pass that does not stop at the first error
             q = run(['clang++'] + cfg.flags() + ['-I' + REPO, '-Wno-everything', '-fsyntax-only', '-ferror-limit=0', '-ftemplate-backtrace-limit=0', base + '_wit.cpp'])
             bad = attribute_errors(q.stderr, len(wits))
+            if (-1 in bad or not bad) and attempt <= 3:
+                # the diagnostics carry no witness marker (the failing instantiation is reached through a non-template member): compile the functions one by one
+                bad = {}
+                allk = sorted(set(widx[i] for i in live))
+                for k in allk:
+                    t1, _ = self._tu_text(wits, 'wit', (set(allk) - {k}) | dead)
+                    open(base + '_one.cpp', 'w').write(t1)
+                    q1 = run(['clang++'] + cfg.flags() + ['-I' + REPO, '-Wno-everything', '-fsyntax-only', '-ferror-limit=3', base + '_one.cpp'])
+                    if q1.returncode != 0:
+                        errs = [l for l in q1.stderr.splitlines() if ' error: ' in l]
+                        loc = next((l for l in q1.stderr.splitlines() if '/Fastor/' in l and ('error' in l or 'note' in l)), errs[0] if errs else '')
+                        bad[k] = ((errs[0] if errs else q1.stderr[:200]).strip()[:300], loc.strip()[:300])
+                try:
+                    os.remove(base + '_one.cpp')
+                except OSError:
+                    pass
             if -1 in bad or not bad or attempt > 3:
                 self.broken.append('witness TU does not compile and errors cannot be attributed (%s): %s' % (cfg.key(), (q.stderr or p.stderr)[:600]))
                 return out
